@@ -510,7 +510,8 @@ _kw_only_loop = Contract(
           'original_kwarg_name': ANY, 'arg_callables': ANY, 'kwarg_callables': ANY, 'arg_names': ANY, 'kwarg_names': ANY,
           'found_arg_signature': BOOL, 'original_arg_name': ANY, 'kw_only_names_': ANY},
     families=['NameW'], yields=Obj('NameW'),
-    invariants={0: ['all(d.string_name in used_names for d in DONE)', 'subset(PRE_used_names, used_names)']},
+    invariants={0: ['all(d.string_name in used_names for d in DONE)', 'subset(PRE_used_names, used_names)',
+                    'subset(YKEYS, used_names)']},
     yield_each_local=['c in kw_only_names', 'c.string_name not in used_names'],
     yield_key='c.string_name',
     ensures=['all(d.string_name in NEW_used_names for d in kw_only_names)'],
